@@ -22,7 +22,7 @@ VARIABLES cfg,        \* [dict : BOOLEAN, limit : 0 (none) | n tokens]
           committed,  \* row groups: [written, filter]
           hist
 vars == <<cfg, switched, alloc, fvals, dvals, pages, committed, hist>>
-view == <<cfg, switched, alloc, fvals, dvals, pages, committed>>
+view == <<cfg, switched, alloc, fvals, dvals, pages, committed, Len(hist)>>   \* the history is observation only; its length bounds the behaviour
 
 Cfgs == [dict : BOOLEAN, limit : {0, 1}]
 
